@@ -78,6 +78,9 @@ POOL = [
     ["# page break below", "\f", "AFTER_FF = 1"],
     ["U = 'line\u2028sep' + 'nel\x85x'  # \x1c \x1d \x1e are not line ends for Python"],
     ["BR = f'{{braces}} {1:>{2}} {{'"],
+    ['FF = """a', "b\x0cc \x0b d", 'e"""  # form feed and vertical tab inside a multi-line string'],
+    ['MF = f"""x', "y", '{1}z"""  # a multi-line f-string whose literal part ends with a line break'],
+    ['US = """a\u2028b\x85c', 'd"""'],
 ]
 BODY = [
     ["x = 1"],
@@ -777,6 +780,29 @@ def oracle(c, o):
                 cands = [f for f in o["frames"] if f["lineno"] == int(m.group(3)) and f["func"].strip() == m.group(4).strip()]
                 if cands and not any(head[i + 1].strip() == f["line"].strip() for f in cands):
                     return "frame-line-not-verbatim"
+    if debug:
+        # under each listed frame: a snippet that numbers consecutively and marks that frame's line
+        for i, l in enumerate(head):
+            m = re.match(r"^\s+(\d+)  (.*):(\d+) in (.*)$", l)
+            if not m:
+                continue
+            cands = [f for f in o["frames"] if f["lineno"] == int(m.group(3)) and f["func"].strip() == m.group(4).strip()]
+            if not cands:
+                continue
+            blk = []
+            for l2 in head[i + 1:]:
+                m2 = SNIP.match(l2)
+                if not m2:
+                    break
+                blk.append((m2.group(2).strip() != "", int(m2.group(3)), m2.group(5)))
+            fr = cands[0]
+            fl2 = o["files"][fr["fi"]]
+            if blk:
+                r = check_snippet(blk, fl2["text"], fl2["tok"], fr["lineno"], "stack-frame")
+                if r:
+                    return r
+            elif fl2["text"] and isinstance(fl2["tok"], list) and 1 <= fr["lineno"] <= len(_src_lines(fl2["text"])):
+                return "snippet-missing:stack-frame"
     rel = lambda p: p.replace(o["cwd"] + os.path.sep, "").replace(o["home"] + os.path.sep, "~" + os.path.sep) if o["cwd"] != "/" else \
         p.replace(o["home"] + os.path.sep, "~" + os.path.sep)
     stack = o["frames"][:-1]
